@@ -2,7 +2,7 @@
 # scripts/verify_seeded.sh <ID> [dir]: confirm a sub-agent's seeded change in its scratch worktree:
 #  suite passes with the change, demo fails with it, demo passes without it.
 # Then store patch.diff, the demo and notes under /verif/seeded/<ID>/.
-ID="$1"; WT="${2:-/tmp/wt/$ID}"; OUT=/verif/seeded/$ID
+ID="$1"; WT="${2:-/tmp/wt/$ID}"; OUT=/verif/seeded/${3:-$ID}
 export GOFLAGS=-mod=mod GOPROXY=off
 mkdir -p "$OUT"; cd "$WT" || exit 2
 DEMO=$(git status --porcelain | grep zz_seeded_demo_test.go | awk '{print $2}' | head -1)
